@@ -18,6 +18,7 @@ META = {
     "transactions' own tz-aware datetimes (no .date(), no total_seconds, no tz stripping); every transaction timestamp comes from the parser that rejects naive "
     "values; each country plugin's period constant-folds to the statement's value (365 US/ES, unreachable for JP/IE, validated env value for generic); "
     "every LONG/SHORT cell or key in the tree is computed from that one predicate (or the yearly line's stored flag), LONG on the true side; the yearly line a fraction is added to carries the flag computed from that same fraction.",
+    "restated": 'no memoisation of the predicate or its inputs by a key coarser than the fraction (C17.c)',
     "not_decided": "datetime subtraction semantics themselves (trusted), run-time values.",
     "assumptions": ["aware-datetime subtraction compares instants; timedelta.days is the floor in whole days", "timedelta.max.days == 999999999"],
 }
